@@ -46,6 +46,8 @@ func mustLoad(repo string) *Prog {
 	}
 	p.ComputeModSets()
 	p.ComputeExecReach()
+	p.ComputeInitOnly()
+	p.ComputeAppendOnly()
 	if os.Getenv("PVC_VERBOSE") != "" {
 		fmt.Fprintf(os.Stderr, "loaded %d functions in %.1fs\n", len(p.FuncList), time.Since(t0).Seconds())
 	}
@@ -59,6 +61,14 @@ func cmdList(args []string) {
 	p := mustLoad(*repo)
 	for k := range p.boxedTypes {
 		fmt.Println("boxed:", k)
+	}
+	for k := range p.AppendOnly {
+		fmt.Println("append-only:", k)
+	}
+	for _, k := range p.allFieldKeys() {
+		if !p.InitOnly[k] {
+			fmt.Println("mutable-after-construction:", k)
+		}
 	}
 	for _, fn := range p.FuncList {
 		why := ""
